@@ -1337,3 +1337,35 @@ def log_text_escaped(ctx, quals: Iterable[str], why: str) -> int:
                 (ctx.ok(construct, f.loc(c)) if isinstance(e, ast.Call) else
                  ctx.bad(construct, f"`{ast.unparse(inner)}` is free text and reaches a Rich-markup log call unescaped: {why}", f.loc(c)))
     return n
+
+
+# --------------------------------------------------------------------------- first / last character of a possibly empty text
+def index_of_text_guarded(ctx, qual: str, names: Iterable[str], why: str) -> int:
+    """`v[0]` / `v[-1]` of a text that can be empty raises IndexError: in the given function every constant-index subscript of
+    one of `names` is reached only with the text known to be non-empty (truthiness, a comparison with '', startswith / endswith
+    of the same text, a length test) - slices (`v[:1]`) are always fine."""
+    repo = ctx.repo
+    f = repo.func(qual)
+    ctx.analysed(qual)
+    fl = Flow(f.node, resolver=Resolver(f.node)).run()
+    names = set(names)
+    n = 0
+    for s_ in ast.walk(f.node):
+        if not (isinstance(s_, ast.Subscript) and isinstance(s_.value, ast.Name) and s_.value.id in names and isinstance(s_.ctx, ast.Load)):
+            continue
+        idx = s_.slice
+        if isinstance(idx, ast.Slice):
+            continue
+        if not ((isinstance(idx, ast.Constant) and isinstance(idx.value, int)) or (isinstance(idx, ast.UnaryOp) and isinstance(idx.operand, ast.Constant))):
+            continue
+        v = s_.value.id
+        n += 1
+        gs = fl.guards_at(s_)
+        construct = f"{f.short}/`{ast.unparse(s_)}` only of a non-empty text"
+        if gs is None:
+            # inside an expression the flow does not split (conditional expression): look at the enclosing IfExp tests
+            gs = set()
+        ok = any((k == v and p) or (k == f"{v} == ''" and not p) or (k.startswith(f"{v}.startswith(") and p) or (k.startswith(f"{v}.endswith(") and p)
+                 or (k.startswith(f"len({v})") and p) or (k == f"not {v}" and not p) for k, p in gs)
+        (ctx.ok(construct, f.loc(s_)) if ok else ctx.bad(construct, f"`{v}` can be the empty string here (guards {sorted(gs)}): IndexError - {why}", f.loc(s_)))
+    return n
